@@ -277,4 +277,51 @@ PROPS["C03"] = {
     "rule": "accepted proofs of generated programs (>= 2^6 rows, with hashing/lookups/random access per feature bits) under few-query configs: for every class of JSON leaf (caps, each opening list, leaves, siblings, step evals, final poly, pow witness, public inputs) a few positions x {+1, 0/1, random}; 3 surgeries per array class; foreign verifier data; standard-strength sweep of every 7th element (thorough: every element); distinct = distinct request lines",
 }
 
+def judge_c18(d):
+    a, b = d["impl"], d["model"]
+    if a == "PANIC":
+        return "verification of a malformed plain proof PANICS"
+    if a == "OK":
+        return "a malformed plain proof is accepted"
+    return f"outcome class differs: implementation {a}, model {b}"
+
+
+PROPS["C18"] = {
+    "lean_modules": ["P2.Props.C18"],
+    "audit_module": "P2.Audit.C18",
+    "harness_prop": "c18",
+    "profile": "release",
+    "judge": judge_c18,
+    "trusted_base": PLONK_TB + [
+        "byte decoders (from_bytes) are exercised on the implementation only (outcome classes); their codec model is part of C17 (partial)",
+        "STARK entry points not covered yet (partial)",
+    ],
+    "level_text": "Lean 4: three-valued verifier model (accept / reject / panic) in which every index, lookup and subtraction of verify is a partial operation; theorems: PLONK shape validation is total and panic-free on structurally arbitrary proofs, a wrong shape is a clean error; tied to CircuitData::verify by outcome-class agreement (OK/ERR/PANIC) on structural mutants of every array of the proof's serde tree; the property's oracle runs on the implementation for plain and compressed verification, decompression and both byte decoders (truncations, bit flips, 8-byte field overwrites incl. huge lengths, random bytes)",
+    "level_note": "F-C18-1 (panic on caps of non-power-of-two length) was found with this model and repaired in /repo (fix: commit). The compressed form has no shape validation: F-C18-2 / F-C18-4 are genuine and recorded in known_findings.jsonl (not a small repair); any OTHER panic or wrongly accepted malformed input is reported as a violation.",
+    "assumptions": [],
+    "rule": "per accepted proof: 5 surgeries x every array class (plain), 3 surgeries x every array class + map entry removal/addition + numeric edits (compressed), byte mutants of both encodings; distinct = distinct request lines",
+}
+
+def judge_c01(d):
+    rq = d["request"]
+    if rq.startswith("c01 prog"):
+        return "the program's public inputs computed by the reference semantics (evalProg) differ from the harness's direct evaluation"
+    return judge_plonk_verdict(d)
+
+
+PROPS["C01"] = {
+    "lean_modules": ["P2.Props.C01", "P2.Props.C03"],
+    "audit_module": "P2.Audit.C01",
+    "harness_prop": "c01",
+    "profile": "release",
+    "judge": judge_c01,
+    "trusted_base": PLONK_TB + [
+        "the gadget compiler (CircuitBuilder gadgets -> gates and copy constraints) is NOT modelled: its correctness is tied only by the end-to-end correspondence (public inputs carried by real proofs = evalProg; Lean verifier accepts) — partial",
+    ],
+    "level_text": "Lean 4: denotational semantics evalProg of a circuit-program language over the builder's gadgets, the complete PLONK verifier model; every generated satisfiable program is built, proved, verified (plain and compressed) by the real code under generated admissible configurations, its public inputs must equal evalProg computed in Lean, and the Lean verifier must accept the dumped proof",
+    "level_note": "Admissible := check_config passes and build returns; configurations the builder refuses loudly are counted only. F-C01-1 (honest proof rejected under Fixed arities exceeding the degree) found with this check and repaired in /repo. F-C01-2 (zk with Fixed/small MinSize schedules never fits blinding) is avoided by the generator and recorded in DESIGN.md.",
+    "assumptions": ["negligible-probability prover failures (zeta in H, PoW search exhausted) are not expected within the explored cases"],
+    "rule": "generated programs (6-300 ops; arithmetic, boolean, select, split/range-check, random access, exponentiation, hashing, lookups with 1-3 tables of 1-60 entries, extension arithmetic) x configs (zk, narrow/wide rows, Fixed/Constant/MinSize, rate 3-4, cap 0-4, 1-3 challenges, standard and cheap strength); distinct = distinct request lines",
+}
+
 NOT_CLAIMED = {}
